@@ -23,6 +23,8 @@ pub(crate) mod testonly;
 #[cfg(test)]
 mod tests;
 mod timeout;
+#[cfg(feature = "verif_hooks")]
+pub(crate) mod verif;
 
 /// The StateMachine struct contains the state of the replica and implements all the
 /// logic of ChonkyBFT.
